@@ -1,0 +1,80 @@
+//go:build verif
+
+package randommap
+
+// Contracts for RandomMap (property C12: a map that can also hand out random members), read by the verification
+// machinery in /verif. Comment-only file.
+//
+// Representation: rawMap maps a key to its entry, keys lists the keys; every entry knows its position in keys.
+// Invariant: keys and rawMap hold the same keys, each once (keys[entry.keyIndex] is the entry's key, the entry of
+// keys[i] has keyIndex i), and an entry is stored under its own key. With it random picks (keys[rand.Intn(size)])
+// are members, and Set / Delete keep it.
+
+/*@
+type RandomMap
+  invariant self.rawMap != nil && self.rawMap.m != nil && self.rawMap.opts != nil && len(self.keys) == len(self.rawMap.m)
+  invariant forall k K :: has(self.rawMap.m, k) ==> self.rawMap.m[k] != nil && self.rawMap.m[k].key == k && 0 <= self.rawMap.m[k].keyIndex && self.rawMap.m[k].keyIndex < len(self.keys) && self.keys[self.rawMap.m[k].keyIndex] == k
+  invariant forall i Int :: 0 <= i && i < len(self.keys) ==> has(self.rawMap.m, self.keys[i]) && self.rawMap.m[self.keys[i]].keyIndex == i
+
+func RandomMap.Set
+  instantiate K: string
+  instantiate V: int
+  opt sequential
+  requires r != nil && inv(r) && unlocked(r.mutex) && unlocked(r.rawMap.mutex)
+  modifies r.keys, randomMapEntry.value, map(r.rawMap.m), allelems(string)
+  ensures inv(r) && unlocked(r.mutex)
+  ensures has(r.rawMap.m, key) && r.rawMap.m[key].value == value
+  ensures forall k K :: k != key ==> (has(r.rawMap.m, k) <==> old(has(r.rawMap.m, k))) && (has(r.rawMap.m, k) ==> r.rawMap.m[k] == old(r.rawMap.m[k]) && r.rawMap.m[k].value == old(r.rawMap.m[k].value))
+
+func RandomMap.Delete
+  instantiate K: string
+  instantiate V: int
+  opt sequential
+  requires r != nil && inv(r) && unlocked(r.mutex) && unlocked(r.rawMap.mutex)
+  modifies r.keys, randomMapEntry.keyIndex, r.rawMap.m, r.rawMap.deletedKeys, allmaps(r.rawMap.m), allelems(string)
+  ensures inv(r) && unlocked(r.mutex)
+  ensures deleted <==> old(has(r.rawMap.m, key))
+  ensures deleted ==> value == old(r.rawMap.m[key].value)
+  ensures !has(r.rawMap.m, key)
+  ensures forall k K :: k != key ==> (has(r.rawMap.m, k) <==> old(has(r.rawMap.m, k))) && (has(r.rawMap.m, k) ==> r.rawMap.m[k] == old(r.rawMap.m[k]))
+
+func RandomMap.Get
+  instantiate K: string
+  instantiate V: int
+  opt sequential
+  requires r != nil && inv(r) && unlocked(r.mutex) && unlocked(r.rawMap.mutex)
+  ensures unlocked(r.mutex) && (exists <==> has(r.rawMap.m, key)) && (exists ==> result == r.rawMap.m[key].value)
+
+func RandomMap.Has
+  instantiate K: string
+  instantiate V: int
+  opt sequential
+  requires r != nil && inv(r) && unlocked(r.mutex) && unlocked(r.rawMap.mutex)
+  ensures unlocked(r.mutex) && (r0 <==> has(r.rawMap.m, key))
+
+func RandomMap.Size
+  instantiate K: string
+  instantiate V: int
+  opt sequential
+  requires r != nil && inv(r) && unlocked(r.mutex) && unlocked(r.rawMap.mutex)
+  ensures unlocked(r.mutex) && r0 == len(r.keys)
+
+-- a random pick is a member (math/rand.Intn(n) is in [0, n) for n > 0: assumed)
+assume-func math/rand.Intn(n) (r)
+  requires n > 0
+  ensures 0 <= r && r < n
+
+func RandomMap.randomKey
+  instantiate K: string
+  instantiate V: int
+  opt sequential
+  requires r != nil && inv(r) && len(r.keys) > 0 && unlocked(r.rawMap.mutex)
+  ensures has(r.rawMap.m, result)
+
+func RandomMap.RandomKey
+  instantiate K: string
+  instantiate V: int
+  opt sequential
+  requires r != nil && inv(r) && unlocked(r.mutex) && unlocked(r.rawMap.mutex)
+  ensures unlocked(r.mutex) && (exists <==> len(r.keys) > 0) && (exists ==> has(r.rawMap.m, defaultValue))
+@*/
